@@ -242,9 +242,15 @@ func c12Run(c *core.Ctx) {
 						// bodies whose bytes contradict the label (Latin-1, a C1 byte, DEL):
 						// the declaration decides, not the byte statistics
 						for _, root := range []string{"", "<a/>", "\n<root>x</root>\n", "<a>caf\xe9</a>", "<a>Wait\x85 \x7f</a>"} {
-							decl := lead + `<?xml version=` + vq + `1.0` + vq + ` encoding=` + q + L + q + tail + `?>`
-							doc := decl + root
-							run([]byte(doc), len(decl), "text/xml", low, "xml-decl", L, real && vq == `"` && tail == "")
+							// white space between the pseudo-attributes: S ::= (#x20 | #x9 | #xD | #xA)+
+							for si, sep := range []string{" ", "\t", "\n", "\r\n", "  \n\t"} {
+								if si > 0 && (root != "<a/>" || tail == ` standalone='no' `) {
+									continue
+								}
+								decl := lead + `<?xml version=` + vq + `1.0` + vq + sep + `encoding=` + q + L + q + tail + `?>`
+								doc := decl + root
+								run([]byte(doc), len(decl), "text/xml", low, "xml-decl", L, real && vq == `"` && tail == "" && si == 0)
+							}
 						}
 					}
 				}
